@@ -107,12 +107,24 @@ def run_text(r, text):
             r.outcome('ok:attrs' if '="' in out else ('ok:tags' if '<' in out else 'ok:plain'))
 
 
+_HELPER_RENDERERS = {}
+
+
+def _helper_renderer(o):
+    """one properly constructed HtmlRenderer per option set (built through the real constructor, so that whatever instance
+    state the renderer keeps is there); the token lists are reset when its context is left"""
+    key = (o['html_escape_double_quotes'], o['html_escape_single_quotes'])
+    if key not in _HELPER_RENDERERS:
+        from mistletoe.html_renderer import HtmlRenderer
+        with HtmlRenderer(**o) as rend:
+            _HELPER_RENDERERS[key] = rend
+    return _HELPER_RENDERERS[key]
+
+
 def check_escape_text(s, r):
     from mistletoe.html_renderer import HtmlRenderer
     for o in OPTS:
-        rend = HtmlRenderer.__new__(HtmlRenderer)
-        rend.html_escape_double_quotes = o['html_escape_double_quotes']
-        rend.html_escape_single_quotes = o['html_escape_single_quotes']
+        rend = _helper_renderer(o)
         out = rend.escape_html_text(s)
         r.transitions += 1
         r.validated += 1
